@@ -9,7 +9,7 @@ PROPS = {
     'C02': dict(units=['conn', 'request'], kani=['method_try_from_exact', 'version_try_from_exact', 'method_roundtrip', 'version_roundtrip', 'find_first_match'],
                 title='Accepted requests are exactly those of the documented grammar'),
     'C03': dict(units=['conn', 'request', 'client', 'response'],
-                kani=['method_try_from_exact', 'version_try_from_exact', 'find_first_match', 'uri_abs_path'],
+                kani=['method_try_from_exact', 'version_try_from_exact', 'find_first_match', 'uri_abs_path_all'],
                 title='No input makes any parsing entry point panic, hang or block'),
     'C04': dict(units=['conn', 'lemmas', 'client'], kani=[], title='Payload and line-length limits are enforced exactly and before buffering'),
     'C05': dict(units=['response'], kani=['status_code_raw', 'mediatype_as_str', 'header_raw_names', 'deprecation_header_line', 'allow_header_line'],
@@ -23,6 +23,6 @@ PROPS = {
     'C14': dict(units=['request', 'lemmas', 'conn', 'response'], kani=['find_first_match'],
                 title='One-shot request parsing agrees with the incremental connection parser'),
     'C16': dict(units=[], kani=['method_try_from_exact', 'version_try_from_exact', 'method_roundtrip', 'version_roundtrip',
-                               'status_code_raw', 'mediatype_as_str', 'uri_abs_path'],
+                               'status_code_raw', 'mediatype_as_str', 'uri_abs_path_all'],
                 title='Token and URI functions are exact, case-sensitive and round-trip'),
 }
